@@ -534,6 +534,7 @@ func c14Models(thorough bool) []gen.Tagged {
 		}
 	}
 	out = append(out, c14Modular(thorough)...)
+	out = append(out, gen.TwinModular()...)
 	// size sweeps: many items tied on (module, file); plain sweeps
 	sizes := gen.SweepSizesSmall
 	if thorough {
